@@ -95,6 +95,35 @@ def run_status(rng):
             outs.append(violated('c18:differ-output', '`delta a b`: output is not the complete rendering of the differ\'s output', len(ref.out), len(r.out), run=r))
         else:
             outs.append(held(sig=('status', 'differ', rc, tuple(sorted(o))), counters={'status_runs': 1}, sets={'sub': ['status:differ-%d' % rc]}))
+    # the same with an active pager: the status is still the differ's / the command's, and the pager receives the rendering
+    for _ in range(2):
+        rc = rng.choice([0, 1, 2, 3, 129])
+        sub = rng.choice([[fa, fb], ['git', 'show'], ['git', 'diff']])
+        log = os.path.join(w, 'tmp', 'c18stp.%d' % int(time.time() * 1e6))
+        env = {'VERIF_STUB_OUT': stub_out, 'VERIF_STUB_RC': str(rc), 'VERIF_PAGER_LOG': log, 'DELTA_PAGER': rng.choice(['mypager', 'less']),
+               'VERIF_PAGER_RC': str(rng.choice([0, 0, 3]))}
+        pargs = [a if a != 'never' else 'always' for a in args]
+        r = run_plain(pargs + sub, b'', env=env, stdin_is_none=True)
+        try:
+            got = open(log + '.stdin', 'rb').read()
+        except OSError:
+            got = None
+        for ext in ('.meta', '.stdin', '.marker'):
+            try:
+                os.unlink(log + ext)
+            except OSError:
+                pass
+        c = crashmod.classify(r)
+        label = 'differ' if sub[0] == fa else '-'.join(sub)
+        if c is not None:
+            outs.append(violated('c18:crash:' + c['signature'], c['detail'], run=r))
+        elif r.rc != rc:
+            outs.append(violated('c18:status-with-pager:' + label, 'with a pager: the command exited %d, delta exited %d' % (rc, r.rc), rc, r.rc, run=r))
+        elif got != ref.out:
+            outs.append(violated('c18:pager-input:' + label, 'with a pager: what the pager received is not the complete rendering', len(ref.out),
+                                 None if got is None else len(got), run=r))
+        else:
+            outs.append(held(sig=('status-pager', label, rc), counters={'status_runs': 1}, sets={'sub': ['status-with-pager:%s-%d' % (label, rc)]}))
     # delta git ... / delta rg ...
     for _ in range(2):
         rc = rng.choice([0, 1, 2, 3, 129, 255])
